@@ -8,7 +8,7 @@ from ..expr import C, SELF, canon, show, strip_epochs, walk
 from ..intervals import EQ, GT, LT, path_orderings
 from ..model import AnalysisError
 from ..own import BINF, TABLE, cand_of, is_bucket
-from .C03 import CTXS, cpaths, insert_flows
+from .C03 import CTXS, candidates_stable, cpaths, insert_flows
 
 EXPL = ("Bounded buckets: every append of an entry to a bucket is dominated by len(bucket) < bucket_size for that bucket "
         "(ordering-set semantics) or sits in a loader loop over range(bucket_size).  Candidate placement: from the ownership "
@@ -30,6 +30,8 @@ def check(prog, rep, tier):
     rep.assume("tables loaded from files that the library did not write are outside the claim")
     bsz = ("f", SELF, "_bucket_size", 0)
     for ctx in CTXS:
+        # the two buckets of a fingerprint are recomputed from the current capacity whenever they are needed
+        candidates_stable(prog, rep, ctx, "C15.candidate")
         # ------------------------------------------------------------ bounded appends
         okb = True
         nsites = 0
